@@ -375,3 +375,48 @@ package render
 //@ ensures nodeError: nerr != nil ==> result == nerr
 //@ ensures flushError: ferr != nil ==> result != nil
 //@ ensures ok: nerr == nil && ferr == nil ==> result == nil
+
+// ---- include: RenderFile (C14) ---------------------------------------------------------
+// Disk wins over the cache; the included source is compiled with the INCLUDING tag's
+// location (so nested includes resolve against the directory of the top-level path) and
+// rendered with a fresh map holding the current bindings (plus the explicit ones).
+
+//@ func (render.Config).Compile
+//@ unverified
+//@ props C14 C06
+//@ assigns *
+//@ ensures one: (result1 == nil) != (result0 == nil)
+//@ ensures tree: @tree
+//@ ensures silent: wunchanged()
+
+//@ func (render.rendererContext).RenderFile
+//@ props C14 C12 C03 C01
+//@ panics nothing
+//@ requires tag: c.node != nil
+//@ ghost rerr Val = nil
+//@ ghost disk Slc = nil
+//@ ghost cerr Val = nil
+//@ ghost nerr Val = nil
+//@ ghost renders Int = 0
+//@ at call ReadFile #1 before assert path: arg0 == filename
+//@ at call ReadFile #1: disk = result0
+//@ at call ReadFile #1: rerr = result1
+//@ at call Compile #1 before assert includerLocation: arg2 == c.node.SourceLoc
+//@ at call Compile #1 before assert diskFirst: rerr == nil ==> arg1 == bstr(disk)
+//@ at call Compile #1 before assert cacheWhenMissing: rerr != nil ==> os.IsNotExist(rerr) && has(c.ctx.config.Cache, filename) && arg1 == bstr(c.ctx.config.Cache[filename])
+//@ at call Compile #1: cerr = result1
+//@ at call Render #1 before assert fresh: fresh(arg2) && arg2 != c.ctx.bindings
+//@ at call Render #1 before assert currentBindings: forall(k, "Str", has(c.ctx.bindings, k) && !has(b, k) ==> has(arg2, k) && arg2[k] == c.ctx.bindings[k])
+//@ at call Render #1 before assert explicit: forall(k, "Str", has(b, k) ==> has(arg2, k) && arg2[k] == b[k])
+//@ at call Render #1 before assert sameConfig: arg3 == c.ctx.config && cerr == nil
+//@ at call Render #1: nerr = result
+//@ at call Render #1: renders = renders + 1
+//@ loop 1 invariant copied: forall(k, "Str", visited(k) ==> has(bindings, k) && bindings[k] == c.ctx.bindings[k])
+//@ loop 1 invariant only: forall(k, "Str", has(bindings, k) ==> visited(k)) && fresh(bindings)
+//@ loop 2 invariant keep: forall(k, "Str", has(c.ctx.bindings, k) && !has(b, k) ==> has(bindings, k) && bindings[k] == c.ctx.bindings[k])
+//@ loop 2 invariant explicit: forall(k, "Str", visited(k) ==> has(bindings, k) && bindings[k] == b[k]) && fresh(bindings)
+//@ ensures readError: rerr != nil && !(os.IsNotExist(rerr) && old(has(c.ctx.config.Cache, filename))) ==> result1 != nil && renders == 0
+//@ ensures compileError: cerr != nil ==> result1 != nil && renders == 0
+//@ ensures renderError: nerr != nil ==> result1 != nil
+//@ ensures errorMeansEmpty: result1 != nil ==> result0 == ""
+//@ ensures once: renders <= 1
